@@ -152,4 +152,58 @@ theorem exactly_one_owner_dataplane (fv bv : Option Str)
 example : felixDataplanePrograms guards (felixEnv felixTable felixTable.dflt ⟨true, false, true⟩ false false false false) .ipip = true ∧
     felixDataplanePrograms guards (felixEnv felixTable felixTable.dflt ⟨true, false, true⟩ false false false false) .noEncap = false := by decide
 
+/-! ## the route managers' bookkeeping -/
+
+theorem rmRun_mem_iff (ty : PoolClass) (d : Nat) : ∀ (hist : List RMsg) (st : List Nat) (acc : Option RMsg),
+    (d ∈ st ↔ ∃ m, acc = some m ∧ m.poolType = ty ∧ m.qualifies = true) →
+    (d ∈ rmRun ty st hist ↔ ∃ m, lastFor d acc hist = some m ∧ m.poolType = ty ∧ m.qualifies = true) := by
+  intro hist
+  induction hist with
+  | nil => intro st acc h; simpa [rmRun, lastFor] using h
+  | cons m t ih =>
+    intro st acc h
+    simp only [rmRun, List.foldl_cons, lastFor]
+    apply ih
+    by_cases hd : m.dst = d
+    · simp only [hd, if_true, Option.some.injEq, exists_eq_left']
+      unfold rmUpdate
+      by_cases hok : m.poolType = ty ∧ m.qualifies = true
+      · simp [hok, hd]
+      · simp only [hok, if_false, List.mem_filter, hd]
+        simp only [bne_self_eq_false, Bool.false_eq_true, and_false, false_iff]
+    · simp only [hd, if_false]
+      rw [← h]
+      unfold rmUpdate
+      have hne : (d != m.dst) = true := by simp [bne_iff_ne]; exact fun e => hd e.symm
+      by_cases hok : m.poolType = ty ∧ m.qualifies = true
+      · simp only [hok, and_self, if_true, List.mem_cons, List.mem_filter, hne, and_true]
+        constructor
+        · rintro (e | e)
+          · exact absurd e.symm hd
+          · exact e
+        · exact Or.inr
+      · simp [hok, List.mem_filter, hne]
+
+/-- **Bookkeeping theorem.**  After ANY history of route updates, a (fresh) manager of pool type
+`ty` programs exactly the destinations whose LAST message is of its own pool type and qualifies;
+in particular a destination whose last message has another pool type is not programmed. -/
+theorem programmed_iff_last_message (ty : PoolClass) (hist : List RMsg) (d : Nat) :
+    d ∈ rmRun ty [] hist ↔ ∃ m, lastFor d none hist = some m ∧ m.poolType = ty ∧ m.qualifies = true :=
+  rmRun_mem_iff ty d hist [] none (by simp)
+
+theorem not_programmed_after_type_change (ty : PoolClass) (hist : List RMsg) (d : Nat) (m : RMsg)
+    (hl : lastFor d none hist = some m) (hne : m.poolType ≠ ty) : d ∉ rmRun ty [] hist := by
+  rw [programmed_iff_last_message]
+  rintro ⟨m', h1, h2, _⟩
+  rw [hl] at h1
+  exact hne ((Option.some.inj h1) ▸ h2)
+
+/-- pool 0 is IPIP, then re-announced as unencapsulated: the IPIP manager forgets both its blocks. -/
+example : rmRun .ipip [] (poolMsgs 0 .ipip ++ poolMsgs 1 .ipip ++ poolMsgs 0 .noEncap) = [3, 2] := by decide
+
+/-- The scenario behind the bookkeeping: default pairing, IPIP pools 0 and 1, pool 0 becomes
+unencapsulated while pool 1 stays (no restart): Felix stops programming pool 0's blocks. -/
+example : let s := (Dyn.setClass felixTable guards felixTable.dflt (Dyn.start felixTable guards felixTable.dflt [.ipip, .ipip, .noEncap]) 0 .noEncap)
+    s.2 = false ∧ s.1.programs 0 = false ∧ s.1.programs 1 = false ∧ s.1.programs 2 = true := by decide
+
 end CalicoVerif.C28
